@@ -94,6 +94,7 @@ class Ctx:
                                                  ("RACE2", "Race2", {"C04"}),
                                                  ("DEADLOCK2", "Deadlock2", {"C05"}),
                                                  ("REFINE3", "Refine3", {"C10", "C11"}),
+                                                 ("REFINE4", "Refine4", {"C20"}),
                                                  ("REFINE5", "Refine5", {"C17"}))
                   if pid in users]
         table = json.load(open(os.path.join(lvlib.VERIF, "checks", "theorems.json")))
